@@ -57,6 +57,8 @@ pub fn run(thorough: bool, seed: u64, _replay: Option<String>) -> Report {
     let mut rep = Report::new("C19", seed);
     let mut drv = Driver::spawn();
     let mut rng = Rng::new(seed);
+    sort_small_t3(&mut rep, &mut drv, &mut rng, if thorough { 5000 } else { 600 });
+    merge_t3(&mut rep, &mut drv, &mut rng, if thorough { 3000 } else { 300 });
     let n = if thorough { 1500 } else { 160 };
     let grid: Vec<f32> = vec![0.0, 0.05, 0.1, 0.2, 0.3, 0.4, 0.5, 0.55, 0.6, 0.65, 0.7, 0.72, 0.74, 0.76, 0.78, 0.8];
     for i in 0..n {
@@ -209,4 +211,101 @@ pub fn run(thorough: bool, seed: u64, _replay: Option<String>) -> Report {
     }
     rep.model_rounds = drv.requests;
     rep
+}
+
+
+/// same layout class as `CoherenceMatch` / `(&Language, OrderedFloat<f32>)`: 16 bytes, no interior
+/// mutability, not `Copy` – takes std's `small_sort_general` (≤ 32) and the Lomuto cyclic partition
+#[derive(Clone)]
+struct Small {
+    id: usize,
+    key: u64,
+}
+
+/// std's `sort_unstable_by` on a 16-byte element type vs `sortUnstableSmall`, exact permutations
+fn sort_small_t3(rep: &mut Report, drv: &mut Driver, rng: &mut Rng, cases: usize) {
+    assert_eq!(std::mem::size_of::<Small>(), 16);
+    // the crate's own element type: `CoherenceMatch` is (reference, f32) = 16 bytes on this target
+    assert_eq!(std::mem::size_of::<(&'static charset_normalizer_rs::entity::Language, ordered_float::OrderedFloat<f32>)>(), 16, "element size of the language lists changed: the sort model's small-sort/partition choice must be revisited");
+    for k in 0..cases {
+        let n = match k % 10 {
+            0 => rng.range(0, 3),
+            1 | 2 => rng.range(2, 20),
+            3 => 20,
+            4 => 21,
+            5 | 6 => rng.range(21, 33),
+            7 => rng.range(33, 48),
+            8 => rng.range(48, 100),
+            _ => rng.range(100, 300),
+        };
+        // keys: distinct / few distinct values (many ties) / nearly sorted / reversed / organ pipe
+        let kind = rng.below(6);
+        let keys: Vec<u64> = (0..n)
+            .map(|i| match kind {
+                0 => rng.below(1_000_000) as u64,
+                1 => rng.below(4) as u64,
+                2 => (i as u64) * 2 + rng.below(4) as u64,
+                3 => (n - i) as u64 + rng.below(2) as u64,
+                4 => (if i < n / 2 { i } else { n - i }) as u64,
+                _ => rng.below(n.max(1) / 3 + 1) as u64,
+            })
+            .collect();
+        let mut v: Vec<Small> = (0..n).map(|id| Small { id, key: keys[id] }).collect();
+        v.sort_unstable_by(|a, b| a.key.cmp(&b.key));
+        let real = v.iter().map(|x| x.id.to_string()).collect::<Vec<_>>().join(" ");
+        let ks = if keys.is_empty() { "-".to_string() } else { keys.iter().map(|x| x.to_string()).collect::<Vec<_>>().join(",") };
+        let model = drv.ask(&format!("sortsmall {} {}", n, ks));
+        rep.evaluations += 1;
+        rep.t3_compared += 1;
+        rep.nontrivial(fp(ks.as_bytes(), "sortsmall"));
+        rep.count(&format!("sortsmall:n{}", if n <= 20 { "<=20" } else if n <= 32 { "21..32" } else if n < 64 { "33..63" } else { ">=64" }));
+        if model.trim_end() != format!("ok {}", real).trim_end() {
+            rep.fail("t3", "C19:small-sort-model-disagrees", &format!("n={} kind={} std: {} || model: {}", n, kind, real, model), ks.as_bytes(), None, "sortsmall");
+        }
+    }
+}
+
+/// `merge_coherence_ratios` vs `mergeModel` on lists of per-chunk results
+fn merge_t3(rep: &mut Report, drv: &mut Driver, rng: &mut Rng, cases: usize) {
+    let table = vh::languages_table();
+    let names: Vec<String> = table.iter().map(|x| format!("{}", x.0)).collect();
+    for _ in 0..cases {
+        let chunks = rng.range(0, 6);
+        let pool = rng.range(1, names.len());
+        let mut lists: Vec<Vec<(String, f32)>> = vec![];
+        for _ in 0..chunks {
+            let len = match rng.below(4) { 0 => 0, 1 => rng.range(1, 4), 2 => rng.range(4, 20), _ => rng.range(15, 41) };
+            let mut l: Vec<(String, f32)> = vec![];
+            for _ in 0..len {
+                let name = names[rng.below(pool)].clone();
+                // coherence_ratio's lists have one entry per language; duplicates are also legal input here
+                if rng.chance(9, 10) && l.iter().any(|x| x.0 == name) {
+                    continue;
+                }
+                let score = match rng.below(4) {
+                    0 => (rng.below(20) as f32) / 20.0,
+                    1 => 0.5,
+                    _ => (rng.below(1_000_000) as f32) / 1_000_000.0,
+                };
+                l.push((name, score));
+            }
+            lists.push(l);
+        }
+        let coh: Vec<vh::Coh> = lists.iter().map(|l| l.iter().map(|(n, s)| (lang_by_name(n).unwrap(), *s)).collect()).collect();
+        let real = vh::merge_coherence_ratios(&coh);
+        let show = |l: &[(String, u32)]| if l.is_empty() { "-".to_string() } else { l.iter().map(|(n, s)| format!("{}={}", n, s)).collect::<Vec<_>>().join(",") };
+        let real_s = show(&real.iter().map(|(l, s)| (format!("{}", l), if *s == 0.0 { 0 } else { s.to_bits() })).collect::<Vec<_>>());
+        let line = format!(
+            "merge {}",
+            if lists.is_empty() { "-".to_string() } else { lists.iter().map(|l| show(&l.iter().map(|(n, s)| (n.clone(), s.to_bits())).collect::<Vec<_>>())).collect::<Vec<_>>().join(" ") }
+        );
+        let model = drv.ask(&line);
+        rep.evaluations += 1;
+        rep.t3_compared += 1;
+        rep.nontrivial(fp(line.as_bytes(), "merge"));
+        rep.count(&format!("merge:languages{}", if real.len() > 20 { ">20" } else if real.len() > 1 { "2..20" } else { "<2" }));
+        if model.trim_end() != format!("ok {}", real_s) {
+            rep.fail("t3", "C19:merge-model-disagrees", &format!("impl: {} || model: {}", real_s, model), line.as_bytes(), None, "merge");
+        }
+    }
 }
